@@ -7,6 +7,10 @@ import (
 	"sort"
 	"strings"
 
+	"github.com/tonkeeper/tongo/boc"
+	"github.com/tonkeeper/tongo/tlb"
+	"github.com/tonkeeper/tongo/ton"
+
 	"verifharness/prng"
 	"verifharness/sx"
 )
@@ -649,7 +653,7 @@ func genC05(c *Ctx) {
 				kvs = append(kvs, c05KV{k, uint32(r.U64())})
 			}
 			sorted := c05SortedDistinct(kvs)
-			build := []string{"put", "new", "new", "new2"}[r.Intn(4)]
+			build := []string{"put", "new", "new", "new2", "fput", "fnew"}[r.Intn(6)]
 			var order []c05KV
 			ord := "shuffled"
 			switch r.Intn(5) {
@@ -675,7 +679,7 @@ func genC05(c *Ctx) {
 			default:
 				order = c05Shuffle(r, sorted)
 			}
-			if build == "put" {
+			if build == "put" || build == "fput" {
 				ord = "any"
 			}
 			e := !r.Chance(30)
@@ -709,14 +713,243 @@ func genC05(c *Ctx) {
 					steps = append(steps, sx.L(sx.A("items"), o))
 				case x < 8 || build == "new2":
 					steps = append(steps, sx.L(sx.A("get"), o, sx.Bits(pick())))
-				default:
+				case x == 8:
 					steps = append(steps, sx.L(sx.A("put"), o, sx.Bits(pick()), sx.N(uint64(uint32(r.U64())))))
+				default:
+					// decode ANOTHER dictionary into the used object: empty / smaller / larger /
+					// disjoint / the same keys with other values
+					var d2 []c05KV
+					kind := r.Intn(5)
+					switch kind {
+					case 0: // empty (HashmapE only)
+					case 1:
+						for _, kv := range sorted {
+							if r.Bool() {
+								d2 = append(d2, kv)
+							}
+						}
+					case 2:
+						d2 = append(d2, sorted...)
+						for _, k := range c05KeySet(r, kt.n, 1+r.Intn(8), c05Shapes[r.Intn(len(c05Shapes))]) {
+							d2 = append(d2, c05KV{k, uint32(r.U64())})
+						}
+					case 3:
+						for _, k := range c05KeySet(r, kt.n, 1+r.Intn(8), c05Shapes[r.Intn(len(c05Shapes))]) {
+							d2 = append(d2, c05KV{k, uint32(r.U64())})
+						}
+					default:
+						for _, kv := range sorted {
+							d2 = append(d2, c05KV{kv.k, uint32(r.U64())})
+						}
+					}
+					d2 = c05SortedDistinct(d2)
+					if len(d2) == 0 && !e {
+						d2 = append(d2, c05KV{sorted[0].k, 5})
+					}
+					root := &c05Cell{bits: "0"}
+					if len(d2) > 0 {
+						t := c05Build(d2)
+						t.chooseForms(r, "random")
+						pc, fits := t.cells(kt.n)
+						if !fits {
+							continue
+						}
+						root = pc
+						if e {
+							root = &c05Cell{bits: "1", refs: []*c05Cell{pc}}
+						}
+					}
+					steps = append(steps, sx.L(sx.A("decode"), o, root.sx()))
+					if r.Bool() {
+						steps = append(steps, sx.L(sx.A("items"), o))
+					}
 				}
 			}
 			steps = append(steps, sx.L(sx.A("items"), sx.Nat(nobj-1)), sx.L(sx.A("marshal"), sx.Nat(0)), sx.L(sx.A("items"), sx.Nat(0)))
 			in := sx.L(sx.Nat(kt.n), sx.B(kt.signed), sx.B(e), sx.A(build), c05ItemsSx(order), sx.L(steps...))
 			out := c.Emit("c05.hist", in, fmt.Sprintf("%s|%s-%s", c05Family(kt), build, ord))
 			c05HistOracle(c, in, out, kt, e, build, order, steps, ref)
+		}
+	}
+	genC05Dec(c)
+}
+
+// --- 7. decoder configurations x value types that use the decoder's state
+func genC05Dec(c *Ctx) {
+	r := c.R
+	cfgs := []string{"plain", "new", "lib", "zlib", "debug"}
+	vts := []string{"u32", "ref", "cell"}
+	widths := []int{8, 16, 32, 64, 256}
+	nDec := c.Scale(8, 60)
+	u32bits := func(v uint32) string { return c05Bin(int(v>>16), 16) + c05Bin(int(v&0xffff), 16) }
+	for _, n := range widths {
+		for _, vt := range vts {
+			for _, cfg := range cfgs {
+				for i := 0; i < nDec; i++ {
+					var kvs []c05KV
+					for _, k := range c05KeySet(r, n, 1+c05PickSize(r, 24), c05Shapes[r.Intn(len(c05Shapes))]) {
+						kvs = append(kvs, c05KV{k, uint32(r.U64())})
+					}
+					kvs = c05SortedDistinct(kvs)
+					t := c05Build(kvs)
+					t.chooseForms(r, "random")
+					var leaves []*c05Tree
+					t.leaves(&leaves)
+					var libs []sx.V
+					flavour := r.Intn(4) // 0: ordinary only, 1: + library, 2: + pruned, 3: everything incl. bad ones
+					kinds := map[string]bool{}
+					for _, lf := range leaves {
+						lf.raw = true
+						if vt == "u32" {
+							lf.vbits = u32bits(lf.value)
+							continue
+						}
+						ord := &c05Cell{bits: u32bits(lf.value) + c05RandBits(r, r.Intn(9))}
+						if vt == "cell" && r.Chance(30) {
+							ord.refs = append(ord.refs, &c05Cell{bits: c05RandBits(r, r.Intn(20))})
+						}
+						ref := ord
+						switch x := r.Intn(100); {
+						case flavour >= 1 && flavour != 2 && x < 40: // library cell known to the resolver
+							lb := "00000010" + c05RandBits(r, 256)
+							ref = &c05Cell{bits: lb, exo: 2}
+							libs = append(libs, sx.L(sx.Bits(lb), ord.sx()))
+							kinds["lib"] = true
+						case flavour >= 2 && x < 60: // pruned branch: the value is absent (zero value)
+							ref = &c05Cell{bits: "0000000100000001" + c05RandBits(r, 272), exo: 1}
+							kinds["pruned"] = true
+						case flavour == 3 && x < 64: // library cell the resolver does not know
+							ref = &c05Cell{bits: "00000010" + c05RandBits(r, 256), exo: 2}
+							kinds["unknown-lib"] = true
+						case flavour == 3 && x < 67: // too few bits for the value
+							ref = &c05Cell{bits: c05RandBits(r, r.Intn(32))}
+							kinds["short"] = true
+						}
+						lf.vrefs = []*c05Cell{ref}
+					}
+					pc, fits := t.cells(n)
+					if !fits {
+						continue
+					}
+					e := r.Chance(70)
+					root := pc
+					if e {
+						root = &c05Cell{bits: "1", refs: []*c05Cell{pc}}
+					}
+					var ks []string
+					for k := range kinds {
+						ks = append(ks, k)
+					}
+					sort.Strings(ks)
+					in := sx.L(sx.Nat(n), sx.B(e), sx.A(cfg), sx.A(vt), root.sx(), sx.L(libs...))
+					rc := "resolver"
+					if cfg == "plain" || cfg == "new" {
+						rc = "no-resolver"
+					}
+					out := c.Emit("c05.dec", in, fmt.Sprintf("%s|%s|%s", rc, vt, strings.Join(ks, "+")))
+					// oracle: a value decodes inside a dictionary exactly as it decodes outside,
+					// under the same decoder configuration
+					lm, _ := c05LibsOfSx(sx.L(libs...))
+					var want []sx.V
+					bad := false
+					for j, lf := range leaves {
+						holder, err := (&c05Cell{bits: lf.vbits, refs: lf.vrefs}).toBoc()
+						if err != nil {
+							bad = true
+							break
+						}
+						v := c05DecOutside(cfg, vt, holder, lm)
+						if v.IsA("err") {
+							bad = true
+							break
+						}
+						want = append(want, sx.L(sx.Bits(kvs[j].k), v))
+					}
+					ws := sx.L(want...).String()
+					if bad {
+						ws = "'err"
+					}
+					if out.String() != ws {
+						c.Fail("c05.dec", in, "value-inside-vs-outside", fmt.Sprintf("decoder configuration %s, value type %s: the dictionary decodes to %s, its values decoded outside a dictionary give %s", cfg, vt, trunc(out.String(), 200), trunc(ws, 200)))
+					}
+				}
+			}
+		}
+	}
+	c05MsgOracle(c)
+}
+
+// values that use the decoder's hasher (tlb.Message keeps its cell hash): inside a
+// dictionary they must come out exactly as outside, under every configuration
+func c05MsgOracle(c *Ctx) {
+	r := c.R
+	for i, nd := 0, c.Scale(6, 60); i < nd; i++ {
+		var keys []tlb.Uint16
+		var values []tlb.Ref[tlb.Message]
+		var cells []*boc.Cell
+		seen := map[uint16]bool{}
+		for j, nk := 0, 1+r.Intn(12); j < nk; j++ {
+			k := uint16(r.U64())
+			if seen[k] {
+				continue
+			}
+			seen[k] = true
+			body := boc.NewCell()
+			_ = body.WriteUint(r.U64(), 64)
+			var acc ton.AccountID
+			for b := range acc.Address {
+				acc.Address[b] = byte(r.U64())
+			}
+			m, err := ton.CreateExternalMessage(acc, body, nil, tlb.VarUInteger16{})
+			if err != nil {
+				c.Fail("c05.dec", sx.A("message"), "harness-message", "cannot build a message")
+				return
+			}
+			mc := boc.NewCell()
+			if err := tlb.Marshal(mc, m); err != nil {
+				c.Fail("c05.dec", sx.A("message"), "harness-message", "cannot marshal a message")
+				return
+			}
+			keys = append(keys, tlb.Uint16(k))
+			values = append(values, tlb.Ref[tlb.Message]{Value: m})
+			cells = append(cells, mc)
+		}
+		root := boc.NewCell()
+		if err := tlb.Marshal(root, tlb.NewHashmapE(keys, values)); err != nil {
+			c.Fail("c05.dec", sx.A("message"), "harness-message", "cannot marshal a dictionary of messages")
+			return
+		}
+		want := map[tlb.Uint16]string{}
+		for j, k := range keys {
+			h, _ := cells[j].HashString()
+			want[k] = h
+		}
+		for _, cfg := range []string{"plain", "new", "lib", "zlib", "debug"} {
+			dec := c05Decoder(cfg, nil)
+			root.ResetCounters()
+			var h tlb.HashmapE[tlb.Uint16, tlb.Ref[tlb.Message]]
+			if err := dec(root, &h); err != nil {
+				c.Fail("c05.dec", sx.A("message-"+cfg), "value-inside-vs-outside", "a dictionary of messages does not decode under decoder configuration "+cfg)
+				continue
+			}
+			items := h.Items()
+			if len(items) != len(keys) {
+				c.Fail("c05.dec", sx.A("message-"+cfg), "value-inside-vs-outside", "a dictionary of messages loses entries under decoder configuration "+cfg)
+				continue
+			}
+			for _, it := range items {
+				j := 0
+				for j < len(keys) && keys[j] != it.Key {
+					j++
+				}
+				cells[j].ResetCounters()
+				var outside tlb.Message
+				errOut := dec(cells[j], &outside)
+				inside := it.Value.Value
+				if errOut != nil || inside.Hash(false).Hex() != outside.Hash(false).Hex() || inside.Hash(false).Hex() != want[it.Key] {
+					c.Fail("c05.dec", sx.A("message-"+cfg), "value-inside-vs-outside", fmt.Sprintf("message value under key %d: hash inside the dictionary %s, outside %s, cell %s", it.Key, inside.Hash(false).Hex(), outside.Hash(false).Hex(), want[it.Key]))
+				}
+			}
 		}
 	}
 }
@@ -728,7 +961,8 @@ func c05HistOracle(c *Ctx, in, out sx.V, kt c05KT, e bool, build string, order [
 		return
 	}
 	prevItems := ""
-	if build != "put" {
+	afterDecode := false
+	if build != "put" && build != "fput" {
 		prevItems = c05ItemsSx(order).String() // NewHashmap keeps the slices as given
 	}
 	prevCell := ""
@@ -763,7 +997,11 @@ func c05HistOracle(c *Ctx, in, out sx.V, kt c05KT, e bool, build string, order [
 				return
 			}
 			if prevItems != "" && prevItems != res.String() {
-				c.Fail("c05.hist", in, "marshal-mutates", fmt.Sprintf("step %d: Items() changed although only Marshal/Get/Items happened since: %s, before %s", j, trunc(res.String(), 150), trunc(prevItems, 150)))
+				key, what := "marshal-mutates", "Items() changed although only Marshal/Get/Items happened since"
+				if afterDecode {
+					key, what = "decode-into-used", "after decoding into a used variable Items() is not what a fresh variable decodes"
+				}
+				c.Fail("c05.hist", in, key, fmt.Sprintf("step %d: %s: %s, expected %s", j, what, trunc(res.String(), 150), trunc(prevItems, 150)))
 				return
 			}
 			prevItems = res.String()
@@ -793,6 +1031,20 @@ func c05HistOracle(c *Ctx, in, out sx.V, kt c05KT, e bool, build string, order [
 		case "put":
 			ref[st.List[2].Bits] = uint32(st.List[3].U64())
 			prevItems, prevCell = "", ""
+		case "decode":
+			// every observable afterwards must be that of a FRESH variable decoding the same cell
+			fresh := safeExec("c05.decode", sx.L(sx.Nat(kt.n), sx.B(e), st.List[2]))
+			if !res.IsA("ok") || fresh.K != sx.KL {
+				c.Fail("c05.hist", in, "hist-decode-fails", fmt.Sprintf("step %d: decoding a valid dictionary into a used variable failed", j))
+				return
+			}
+			for k := range ref {
+				delete(ref, k)
+			}
+			for _, kv := range c05KVsOf(fresh) {
+				ref[kv.k] = kv.v
+			}
+			prevItems, prevCell, afterDecode = fresh.String(), "", true
 		}
 	}
 }
@@ -972,6 +1224,35 @@ func c05Regressions(c *Ctx) {
 	in5 := sx.L(sx.Nat(8), sx.B(true), sx.B(true), sx.A("put"), c05ItemsSx(h2), sx.L(s2...))
 	c05HistOracle(c, in5, c.Emit("c05.hist", in5, "regression|hist-put"), c05KT{8, true}, true, "put", h2, s2,
 		map[string]uint32{"11111001": 77, "11111111": 1, "00000000": 2, "00000101": 3})
+	// decoding INTO a used object (seeded change C05-r3m2: HashmapE kept the old entries when the new
+	// dictionary is empty; before "fix: reset a Hashmap before decoding into it" a plain Hashmap
+	// accumulated the entries of every dictionary decoded into it)
+	h3 := []c05KV{{"00000001", 1}, {"00000010", 2}}
+	s3 := []sx.V{st("decode", (&c05Cell{bits: "0"}).sx()), st("items"), st("get", sx.Bits("00000001")), st("marshal")}
+	in6 := sx.L(sx.Nat(8), sx.B(false), sx.B(true), sx.A("new"), c05ItemsSx(h3), sx.L(s3...))
+	c05HistOracle(c, in6, c.Emit("c05.hist", in6, "regression|hist-decode-empty"), c05KT{8, false}, true, "new", h3, s3,
+		map[string]uint32{"00000001": 1, "00000010": 2})
+	t7 := c05Build([]c05KV{{"00000111", 70}})
+	t7.chooseForms(c.R.Fork(2), "go")
+	p7, _ := t7.cells(8)
+	s4 := []sx.V{st("decode", p7.sx()), st("items"), st("marshal"), st("decode", p7.sx()), st("items")}
+	in7 := sx.L(sx.Nat(8), sx.B(false), sx.B(false), sx.A("fnew"), c05ItemsSx(h3), sx.L(s4...))
+	c05HistOracle(c, in7, c.Emit("c05.hist", in7, "regression|hist-decode-field"), c05KT{8, false}, false, "fnew", h3, s4,
+		map[string]uint32{"00000001": 1, "00000010": 2})
+	// the decoder's library resolver must reach the values of a dictionary (seeded change C05-r3m1)
+	lb := "00000010" + strings.Repeat("01", 128)
+	t8 := c05Build([]c05KV{{"00000101", 0}, {"10000101", 0}})
+	t8.chooseForms(c.R.Fork(3), "go")
+	var lv []*c05Tree
+	t8.leaves(&lv)
+	lv[0].raw, lv[0].vrefs = true, []*c05Cell{{bits: lb, exo: 2}}
+	lv[1].raw, lv[1].vrefs = true, []*c05Cell{{bits: "00000000000000000000000000000111"}}
+	p8, _ := t8.cells(8)
+	in8 := sx.L(sx.Nat(8), sx.B(true), sx.A("lib"), sx.A("ref"), (&c05Cell{bits: "1", refs: []*c05Cell{p8}}).sx(),
+		sx.L(sx.L(sx.Bits(lb), (&c05Cell{bits: "00000000000000000000000000101010"}).sx())))
+	if out8 := c.Emit("c05.dec", in8, "regression|dec-library"); out8.String() != "((b00000101 n2a) (b10000101 n7))" {
+		c.Fail("c05.dec", in8, "value-inside-vs-outside", "a dictionary whose value is a reference to a library cell, decoded with a library resolver, gives "+trunc(out8.String(), 120))
+	}
 }
 
 // Known finding addr-workchain-int8 (C05_address_workchain_int8_refuted): replayed on
